@@ -101,7 +101,7 @@ func TestVerif_C10_AEAD(t *testing.T) {
 		dst, pt, prefix := c10Dst(t, "seal", sealCls, len(c.PT)+c.TagSize, c.PT)
 		inplace := sealCls == "inplace" || sealCls == "inplace-room"
 		var out []byte
-		if p := vt.Catch(func() { out = a.Seal(dst, nonce, pt, aad) }); p != nil {
+		if p := vt.Catch(func() { c.dirty(); out = a.Seal(dst, nonce, pt, aad) }); p != nil {
 			vt.Fail(t, rec, "C10:seal:panic:"+sealCls, "Seal panicked with dst class %s (len %d cap %d): %v\n%s", sealCls, len(dst), cap(dst), p, desc())
 			return
 		}
@@ -146,7 +146,7 @@ func TestVerif_C10_AEAD(t *testing.T) {
 		oinplace := openCls == "inplace" || openCls == "inplace-room"
 		var po []byte
 		var oerr error
-		if p := vt.Catch(func() { po, oerr = a.Open(odst, nonce, ct, aad) }); p != nil {
+		if p := vt.Catch(func() { c.dirty(); po, oerr = a.Open(odst, nonce, ct, aad) }); p != nil {
 			vt.Fail(t, rec, "C10:open:panic:"+openCls, "Open panicked with dst class %s (len %d cap %d): %v\n%s", openCls, len(odst), cap(odst), p, desc())
 			return
 		}
